@@ -683,13 +683,28 @@ fn test_components() {
     assert_eq!(set.get_components().len(), 2);
 }
 
-/// 散列化「无序不重复词项容器」
-/// * ⚠️潜在假设：集合相同⇒遍历顺序相同⇒散列化顺序相同⇒散列化结果相同
-fn hash_term_set<H: std::hash::Hasher>(set: &TermSetType, state: &mut H) {
-    // 逐个元素散列化
-    for term in set {
-        term.hash(state)
+/// 散列化一组「无序」词项
+/// * 🚩与遍历顺序无关：每个词项用【固定密钥】的散列器独立散列，再用（可交换的）环绕加法合并
+/// * 📌[`HashSet`]的遍历顺序取决于各自的随机种子：相等的集合，遍历顺序未必相同
+///   * ⚠️故不能「逐个元素直接散列进`state`」
+fn hash_terms_unordered<'a, H: std::hash::Hasher>(
+    terms: impl Iterator<Item = &'a Term>,
+    state: &mut H,
+) {
+    use std::hash::Hasher;
+    let mut sum: u64 = 0;
+    for term in terms {
+        let mut hasher = std::collections::hash_map::DefaultHasher::new();
+        term.hash(&mut hasher);
+        sum = sum.wrapping_add(hasher.finish());
     }
+    state.write_u64(sum);
+}
+
+/// 散列化「无序不重复词项容器」
+/// * 🚩与集合的遍历顺序无关（参见[`hash_terms_unordered`]）
+fn hash_term_set<H: std::hash::Hasher>(set: &TermSetType, state: &mut H) {
+    hash_terms_unordered(set.iter(), state)
 }
 
 /// 实现/散列化逻辑
@@ -748,16 +763,17 @@ impl Hash for Term {
             ConjunctionParallel(set) => hash_term_set(set, state),
             // 陈述
             Inheritance(t1, t2)
-            | Similarity(t1, t2)
             | Implication(t1, t2)
-            | Equivalence(t1, t2)
             | ImplicationPredictive(t1, t2)
             | ImplicationConcurrent(t1, t2)
             | ImplicationRetrospective(t1, t2)
-            | EquivalencePredictive(t1, t2)
-            | EquivalenceConcurrent(t1, t2) => {
+            | EquivalencePredictive(t1, t2) => {
                 t1.hash(state);
                 t2.hash(state);
+            }
+            // 对称陈述：判等时主谓词可交换⇒散列化须与主谓词顺序无关
+            Similarity(t1, t2) | Equivalence(t1, t2) | EquivalenceConcurrent(t1, t2) => {
+                hash_terms_unordered([t1.as_ref(), t2.as_ref()].into_iter(), state)
             }
         }
     }
